@@ -22,7 +22,9 @@ RULE = (
     "spelling with thresholds drawn preferentially EQUAL to a value in the record; frequency tags incl. zero / all-zero "
     "vectors; invalid filter strings must raise ValueError. Oracle: decimal-exact predicate on the text values. (b) CLI level: "
     "assemble output of generated datasets gets its INFO/AFP rewritten with generated vectors (zeros, all-zero) and is run "
-    "through call, call-exact and call-pedigree with --prior-frequencies / --filter-input-haplotypes. non-trivial = threshold "
+    "through call, call-exact and call-pedigree with --prior-frequencies / --filter-input-haplotypes (one case in three removes "
+    "the reference by the filter under the default flat prior). (c) exact posterior with 100-2000 copies of reads that match an "
+    "allele of zero prior (F from 0 to 0.5): that allele must get exactly zero posterior and never be called. non-trivial = threshold "
     "equal to a record value, or a filter removing >=1 ALT, or a zero frequency; distinct by decoded case"
 )
 ASSUMPTIONS = [
@@ -243,7 +245,8 @@ def cli_case(draw):
             "use_prior": draw(st.booleans()), "use_filter": draw(st.booleans()), "all_zero_record": draw(st.integers(0, 3)) == 0,
             "threshold": draw(st.sampled_from([0.2, 0.9, 0.05])), "seed": draw(st.integers(1, 10000)),
             "pedigree_parent": draw(st.booleans()), "filter_field": draw(st.sampled_from(["AFP", "AFP", "AC"])),
-            "inbreeding": {s: draw(st.sampled_from([0.0, 0.1, 0.3, 0.5])) for s in spec["samples"]}, "target_zero": draw(st.booleans())}
+            "inbreeding": {s: draw(st.sampled_from([0.0, 0.1, 0.3, 0.5])) for s in spec["samples"]}, "target_zero": draw(st.booleans()),
+            "force_ref_mask": draw(st.integers(0, 2)) == 0, "replicate": draw(st.sampled_from([1, 1, 8]))}
 
 
 def check_cli(ctx, case):
@@ -253,6 +256,19 @@ def check_cli(ctx, case):
     shutil.rmtree(wd, ignore_errors=True)
     classes = ["cli"]
     nontrivial = False
+    # reference removed by the filter while the prior is the default flat one (no --prior-frequencies)
+    force_ref = bool(case.get("force_ref_mask")) and not case.get("target_zero") and not case["all_zero_record"]
+    if force_ref:
+        case = dict(case, use_prior=False, use_filter=True, filter_field="AFP", filter_op=">")
+        classes.append("reference_removed_by_filter_flat_prior")
+    if case.get("replicate", 1) > 1:
+        # every read several times (new names): the genotypes are then strongly supported by the data
+        import copy
+
+        spec = copy.deepcopy(spec)
+        for b in spec["bams"]:
+            b["reads"] = [dict(r, qname="%s_c%d" % (r["qname"], k)) for k in range(case["replicate"]) for r in b["reads"]]
+        classes.append("deep_samples")
     try:
         paths = D.write_dataset(spec, wd)
         kw = dict(ploidy=case["ploidy"], directory=wd)
@@ -276,14 +292,19 @@ def check_cli(ctx, case):
             if case["all_zero_record"] and ri == 0:
                 vec = ["0"] * n_all
             elif case.get("target_zero"):
-                # zero prior on an ALT allele that some sample carries in >= 2 copies (well supported by its reads)
+                # zero prior on an allele (ALT or the reference) that some sample carries in >= 2 copies (well supported by its reads)
                 for col in c[9:]:
-                    gt = [a for a in col.split(":")[0].split("/") if a not in (".", "0")]
-                    dup = [a for a in set(gt) if gt.count(a) >= 2]
+                    gt = [a for a in col.split(":")[0].split("/") if a != "."]
+                    dup = sorted(a for a in set(gt) if gt.count(a) >= 2)
                     if dup:
                         vec = ["0.25" if v == "0" else v for v in vec]
-                        vec[int(sorted(dup)[0])] = "0"
+                        alt_dup = [a for a in dup if a != "0"]
+                        pick = "0" if ("0" in dup and (case["seed"] % 2 == 0 or not alt_dup)) else alt_dup[(case["seed"] // 2) % len(alt_dup)]
+                        vec[int(pick)] = "0"
+                        classes.append("zero_prior_on_carried_" + ("reference" if pick == "0" else "alt"))
                         break
+            if force_ref:
+                vec[0] = "0.01"
             ri += 1
             info = [kv for kv in c[7].split(";") if not kv.startswith("AFP=")] + ["AFP=" + ",".join(vec)]
             c[7] = ";".join(info)
@@ -295,8 +316,9 @@ def check_cli(ctx, case):
         ffield = case.get("filter_field", "AFP")
         allv = sorted({v for r in inputs for v in r[ffield]}) or ["0"]
         filt = None
+        thr_text = "0.01" if force_ref else allv[case["filter_pick"] % len(allv)]
         if case["use_filter"]:
-            filt = ffield + case["filter_op"] + allv[case["filter_pick"] % len(allv)]
+            filt = ffield + case["filter_op"] + thr_text
         extra = ["--report", "AFPRIOR", "AFP", "AOP", "ACP", "GP"]
         if case["use_prior"] or case.get("target_zero"):
             case = dict(case, use_prior=True)
@@ -329,7 +351,7 @@ def check_cli(ctx, case):
                     keep = [True] * n
                     mask = inp["REFMASKED"]
                     if filt:
-                        thr = Decimal(allv[case["filter_pick"] % len(allv)])
+                        thr = Decimal(thr_text)
                         if ffield == "AFP":
                             keep = [OPS[case["filter_op"]](Decimal(x), thr) for x in inp["AFP"]]
                         else:  # A-length field: the reference is never tested
@@ -414,8 +436,37 @@ def check_sequence(ctx, case):
     return problems
 
 
+@st.composite
+def deep_zero_case(draw):
+    """Exact posterior where the reads overwhelmingly (hundreds to thousands of nats) support an allele whose prior is zero."""
+    import itertools
+
+    n_base = draw(st.integers(3, 6))
+    n_alleles = [2] * n_base
+    all_h = draw(st.permutations([list(h) for h in itertools.product([0, 1], repeat=n_base)]))
+    n_h = draw(st.integers(2, 4))
+    haps = [list(h) for h in all_h[:n_h]]
+    z = draw(st.integers(0, n_h - 1))
+    w = [draw(st.integers(1, 8)) for _ in range(n_h)]
+    w[z] = 0
+    tot = sum(w)
+    p = draw(st.sampled_from([0.99, 0.999]))
+    reads, counts = [], []
+    for _ in range(draw(st.integers(1, 2))):
+        reads.append([[p if a == haps[z][j] else (1 - p) for a in range(2)] for j in range(n_base)])
+        counts.append(draw(st.integers(100, 2000)))
+    return {"kind": "deep_zero", "n_alleles": n_alleles, "haplotypes": haps, "ploidy": draw(st.integers(2, 4)), "frequencies": [x / tot for x in w],
+            "inbreeding": draw(st.sampled_from([0.0, 0.02, 0.05, 0.1, 0.3, 0.5])), "reads": reads, "counts": counts}
+
+
+def check_deep_zero(ctx, case):
+    from . import c03
+
+    return [Problem("deep_zero_prior:" + p.signature, p.message) for p in c03.check_function(ctx, case)]
+
+
 def replay(ctx, case):
-    return {"record": check_record, "invalid": check_invalid, "cli": check_cli, "sequence": check_sequence}[case["kind"]](ctx, case)
+    return {"record": check_record, "invalid": check_invalid, "cli": check_cli, "sequence": check_sequence, "deep_zero": check_deep_zero}[case["kind"]](ctx, case)
 
 
 def run(ctx):
@@ -423,4 +474,5 @@ def run(ctx):
     ctx.hyp("records", record_case(), check_record, 1500 if q else 10000)
     ctx.hyp("sequence", sequence_case(), check_sequence, 300 if q else 2000)
     ctx.hyp("invalid", invalid_case(), check_invalid, 100 if q else 400)
+    ctx.hyp("deep_zero_prior", deep_zero_case(), check_deep_zero, 60 if q else 400)
     ctx.hyp("cli", cli_case(), check_cli, 45 if q else 150)
